@@ -731,6 +731,8 @@ where
             _ => SessionStopReason::Ended,
         };
         self.session.set_session_stop_reason(session_stop_reason);
+        // No outcome can arrive any more: the sends that still wait for one fail with the reason
+        self.session.abandon_outcome_waiters();
         let _ =
             connection::deallocate_session(&mut self.conn_control, self.session.outgoing_channel())
                 .await;
